@@ -65,7 +65,7 @@ func (s *S2) Tag1() int { return s.ID }
 func (s *S3) Tag1() int { return s.ID }
 
 var (
-	typS = []reflect.Type{reflect.TypeOf((*S0)(nil)), reflect.TypeOf((*S1)(nil)), reflect.TypeOf((*S2)(nil)), reflect.TypeOf((*S3)(nil))}
+	typS        = []reflect.Type{reflect.TypeOf((*S0)(nil)), reflect.TypeOf((*S1)(nil)), reflect.TypeOf((*S2)(nil)), reflect.TypeOf((*S3)(nil))}
 	typI0       = reflect.TypeOf((*I0)(nil)).Elem()
 	typI1       = reflect.TypeOf((*I1)(nil)).Elem()
 	typCtx      = reflect.TypeOf((*context.Context)(nil)).Elem()
@@ -453,35 +453,36 @@ func (c *opCtx) scopeOr(d string) string {
 
 // run is the state of one scenario.
 type runState struct {
-	mu       sync.Mutex
-	cmu      sync.Mutex
-	cfg      *Cfg
-	nextID   int
-	fnReg    map[string]string // function name -> registration id
-	regByID  map[string]*RegCfg
-	inv      map[string]int // registration id -> invocations so far
-	closeErr map[string]bool
-	scopes   map[string]godi.Scope
-	names    map[godi.Scope]string
-	cancels  map[string]context.CancelFunc
-	markers  map[string]string // scope name -> marker value visible in its context
-	deadlines map[string]time.Time // scope name -> deadline its context must report (zero: none)
-	provider godi.Provider
-	cur      *opCtx
-	quiet    bool
-	stop     bool
-	bare     bool // no recorder at all (race-detector runs)
+	mu           sync.Mutex
+	cmu          sync.Mutex
+	cfg          *Cfg
+	nextID       int
+	fnReg        map[string]string // function name -> registration id
+	regByID      map[string]*RegCfg
+	inv          map[string]int // registration id -> invocations so far
+	closeErr     map[string]bool
+	scopes       map[string]godi.Scope
+	names        map[godi.Scope]string
+	cancels      map[string]context.CancelFunc
+	markers      map[string]string    // scope name -> marker value visible in its context
+	deadlines    map[string]time.Time // scope name -> deadline its context must report (zero: none)
+	provider     godi.Provider
+	cur          *opCtx
+	quiet        bool
+	stop         bool
+	bare         bool // no recorder at all (race-detector runs)
 	concurrent   bool
 	curs         map[int64]*opCtx // per goroutine (concurrent mode)
 	pendingNames map[godi.Scope]string
-	orphans      []string // context state of scope objects whose creation failed
+	orphans      []string           // context state of scope objects whose creation failed
 	buildCancel  context.CancelFunc // set while a Build started with a cancellable context is in progress
+	storm        bool               // contention scenario: closes are only counted
 	closeWaits   bool               // instance Close waits for overlapping resolutions on its scope (free-running programs)
 	instScope    map[int]string     // instance id -> scope it was constructed for
 	creating     map[int64]string
-	instReg  map[int]string
-	waiters  map[godi.Scope]chan struct{}
-	gate     func(point string, args ...any) // ctor / close scheduling gate (concurrent mode)
+	instReg      map[int]string
+	waiters      map[godi.Scope]chan struct{}
+	gate         func(point string, args ...any) // ctor / close scheduling gate (concurrent mode)
 }
 
 var R *runState
@@ -771,6 +772,17 @@ var runNo int
 func recClose(id int, run int) error {
 	R := R
 	if R == nil || R.bare || run != runNo {
+		return nil
+	}
+	if R.storm {
+		v, _ := stormCloses.LoadOrStore(id, new(int64))
+		atomic.AddInt64(v.(*int64), 1)
+		R.mu.Lock()
+		bad := R.closeErr[R.instReg[id]]
+		R.mu.Unlock()
+		if bad {
+			return errCloseFault
+		}
 		return nil
 	}
 	if R.gate != nil {
